@@ -314,6 +314,43 @@ static void services(const J &sc, Emitter &out)
             res = std::string(found ? "found" : "notfound") + "/" + issuesDigest(an);
             fail = !found;
             lg = an;
+        } else if (op == "lookupIdx") { // item(id) (index < 0) or item(id, index): unique, duplicated and unknown ids, indices in and out of range
+            AnnotatorPtr an = fresh ? Annotator::create() : (s.AN ? s.AN : (s.AN = Annotator::create()));
+            an->setModel(s.m);
+            long idx = static_cast<long>(c["index"].num());
+            auto item = idx < 0 ? an->item(c["id"].str()) : an->item(c["id"].str(), static_cast<size_t>(idx));
+            key += "|" + c["id"].str() + "|" + std::to_string(idx) + "|" + inBefore;
+            bool found = item && item->type() != CellmlElementType::UNDEFINED;
+            res = std::string(found ? "found" : "notfound") + "/" + issuesDigest(an);
+            fail = !found;
+            lg = an;
+        } else if (op == "assignUnowned") { // an item that does not belong to the annotator's model
+            AnnotatorPtr an = fresh ? Annotator::create() : (s.AN ? s.AN : (s.AN = Annotator::create()));
+            an->setModel(s.m);
+            auto unowned = Variable::create("unowned");
+            std::string r = an->assignId(unowned);
+            key += "|" + inBefore;
+            res = std::string(r.empty() ? "none" : "assigned") + "/" + issuesDigest(an);
+            fail = r.empty();
+            lg = an;
+        } else if (op == "assignNullModel") {
+            AnnotatorPtr an = Annotator::create();
+            ModelPtr none;
+            bool ok = an->assignAllIds(none);
+            res = std::string(ok ? "true" : "false") + "/" + issuesDigest(an);
+            fail = !ok;
+            lg = an;
+        } else if (op == "lookupExpired") { // the model handed to the annotator is destroyed before the lookup
+            AnnotatorPtr an = Annotator::create();
+            {
+                auto temp = Parser::create()->parseModel(poolTexts().at("dupids"));
+                an->setModel(temp);
+            }
+            auto item = an->item("uq");
+            bool found = item && item->type() != CellmlElementType::UNDEFINED;
+            res = std::string(found ? "found" : "notfound") + "/" + issuesDigest(an);
+            fail = !found;
+            lg = an;
         } else {
             applicable = false;
         }
